@@ -102,7 +102,7 @@ def build(cfg, values=None):
 def configs(tier, seed):
     out = []
     quick = tier == 'quick'
-    pairs = [(2, 2), (3, 2), (1, 3)] if quick else [(1, 1), (2, 2), (3, 2), (2, 3), (3, 3), (4, 3), (5, 4), (6, 5)]
+    pairs = [(2, 2), (3, 2), (1, 3), (4, 1), (1, 5)] if quick else [(1, 1), (2, 2), (3, 2), (2, 3), (3, 3), (4, 3), (5, 4), (6, 5)]
     for model in MODELS:
         for (m, n) in pairs:
             if model == 'kpanel' and m * n > (6 if quick else 12):
